@@ -30,8 +30,8 @@ pub fn world() -> World {
         ],
         rule: "one run = one history of Face / FaceModify / Char commands encoded in true colour, cut by a drawn schedule and decoded, or one history of SGR sequences and text written through tty_writer under a drawn schedule; non-trivial = a cut fell inside an escape sequence or multi-byte character; distinct = distinct hash of (item kinds, parameter classes, cut classes)",
         runs: |_, tier| match tier {
-            Tier::Quick => 300_000,
-            Tier::Thorough => 10_000_000,
+            Tier::Quick => 900_000,
+            Tier::Thorough => 30_000_000,
         },
         features: &[],
     }
